@@ -48,6 +48,14 @@ def pool(rng, scratch):
     open(os.path.join(d, "m3.xbb"), "w").write('name m3\nversion 1.0\ninclude "bad.xbb"\nVac | 0\n')
     for f in ("m1", "m2", "m3"):
         items.append(("include-" + f, {"path": os.path.join(d, f + ".xbb")}))
+    # two projects with the same relative layout but different subroutines, loaded through relative paths
+    for proj, gate in (("PA", "Sgate"), ("PB", "BSgate")):
+        pd = os.path.join(scratch, proj)
+        os.makedirs(os.path.join(pd, "lib"), exist_ok=True)
+        open(os.path.join(pd, "lib", "sub.xbb"), "w").write("name Sub\nversion 1.0\n%s({x}) | 4\nRgate(1) | 9\n" % gate)
+        open(os.path.join(pd, "main.xbb"), "w").write('name main\nversion 1.0\ninclude "lib/sub.xbb"\nSub(x=0.5) | [0, 1]\n')
+        items.append(("relative-include-" + proj, {"path": "main.xbb", "cwd": pd}))
+    items.append(("op-named-like-include", {"text": H + "Sub(x=1) | [0, 1]\nsub(a=1) | [2, 3]\n"}))
     for i in range(10):
         g = Gen(rng, allow_params=(i % 2 == 0))
         try:
@@ -86,6 +94,13 @@ def run(tier, seed):
             for a in items:
                 for b in items:
                     hists.append([a, b])
+        # always: all ordered pairs (and some triples) among the entries that involve files / includes / names of includes
+        special = [it for it in items if it[0].startswith(("include-", "relative-include-", "op-named-like"))]
+        for a in special:
+            for b in special:
+                hists.append([a, b])
+                if a is not b:
+                    hists.append([a, b, a])
         n = 150 if quick else 3000
         for _ in range(n):
             ln = rng.randint(2, 4 if quick else 6)
